@@ -82,7 +82,7 @@ Definition fr (vl : list N) (mp : list (N * N)) (o : l3) (x : l4) : frame :=
   {| fDst := 1108152157446; fSrc := 2207613190663; fVlans := vl; fMpls := mp; fOuter := o; fTun := TNone; fInner := o;
      fL4 := x; fTail := [1; 2; 3] |}.
 Definition probe_frames : list frame :=
-  [fr [100] [] (L3v4 probe_ip4) (L4TCP 1234 443 18);
+  [fr [100] [] (L3v4 probe_ip4) (L4TCP 1234 443 18 0);
    fr [] [] (L3v6 probe_ip6) (L4UDP 5353 53);
    fr [] [] (L3v4 probe_ip4) (L4ICMP 8 3);
    fr [] [(16001, 63); (16002, 62)] (L3v4 probe_ip4) (L4UDP 1 2);
